@@ -106,16 +106,41 @@ func c05(p *model.Prog, r *report.Result) {
 	}
 
 	r.Rule("C05.LOOP", "in pkg/remux and pkg/logic, every loop with an exit condition that depends on a timestamp field (TimestampAbs, Timestamp, Dts, Pts) of a message, and that calls out per iteration, is preceded in its function by a guard comparing a difference of timestamp-dependent values with a constant (that the loop is entered only across that guard is a reviewed invariant when the guard is part of a short-circuit condition), and its exit test is not computed in the timestamp's own 32-bit type")
-	isTs := func(v ssa.Value) bool {
+	isBaseTs := func(v ssa.Value) bool {
 		f := model.LoadedField(v)
 		if f == nil {
 			return false
 		}
 		switch f.Name() {
-		case "TimestampAbs", "Timestamp", "Dts", "Pts", "prevAudioTs":
+		case "TimestampAbs", "Timestamp", "Dts", "Pts":
 			return true
 		}
 		return false
+	}
+	// derived timestamps: integer fields of pkg/remux and pkg/logic types that are assigned a
+	// value depending on a message timestamp (the dummy-audio filter's previous audio timestamp)
+	derivedTs := map[*types.Var]bool{}
+	for _, fn := range append(lalFuncsIn(p, "pkg/remux"), lalFuncsIn(p, "pkg/logic")...) {
+		model.EachInstr(fn, func(in ssa.Instruction) {
+			st, ok := in.(*ssa.Store)
+			if !ok {
+				return
+			}
+			f := model.FieldOf(st.Addr)
+			if f == nil || !isInteger(f.Type()) || f.Pkg() == nil || f.Pkg() != model.FnPkg(fn) {
+				return
+			}
+			if model.DependsOn(st.Val, isBaseTs) {
+				derivedTs[f] = true
+			}
+		})
+	}
+	isTs := func(v ssa.Value) bool {
+		if isBaseTs(v) {
+			return true
+		}
+		f := model.LoadedField(v)
+		return f != nil && derivedTs[f]
 	}
 	nLoops := 0
 	for _, fn := range append(lalFuncsIn(p, "pkg/remux"), lalFuncsIn(p, "pkg/logic")...) {
